@@ -81,6 +81,7 @@ B('C02.lazy-certificate-property-outside-handler', ['C02'], [(P + 'ssh/key.py', 
 B('C05.zoneless-date-stays-naive', ['C05'], [(P + 'common/parse.py', "            if date_time.tzinfo is None:\n                date_time = date_time.replace(tzinfo=dateutil.tz.UTC)\n            else:\n                date_time = date_time.astimezone(dateutil.tz.UTC)\n", "            if date_time.tzinfo is not None:\n                date_time = date_time.astimezone(dateutil.tz.UTC)\n")], mention='zone-less')
 B('C05.date-fraction-kept', ['C05'], [(P + 'common/parse.py', "            date_time = date_time.replace(microsecond=0)\n", "")], mention='fraction')
 N('benign.date-normalised-in-two-steps', [(P + 'common/parse.py', "            if date_time.tzinfo is None:\n                date_time = date_time.replace(tzinfo=dateutil.tz.UTC)\n            else:\n                date_time = date_time.astimezone(dateutil.tz.UTC)\n            date_time = date_time.replace(microsecond=0)\n", "            if date_time.tzinfo is None:\n                date_time = date_time.replace(tzinfo=dateutil.tz.UTC)\n            date_time = date_time.astimezone(dateutil.tz.UTC).replace(microsecond=0)\n")])
+B('C05.json-seconds-keep-their-fraction', ['C05'], [(P + 'common/field.py', "        return cls(datetime.timedelta(seconds=int(time_delta.total_seconds())))\n", "        return cls(time_delta)\n")], mention='C05.R12')
 B('C02.unsupported-width', ['C02'], [(P + 'tls/extension.py', "        parser.parse_numeric('record_size_limit', 2)", "        parser.parse_numeric('record_size_limit', 5)")], props=['C02'])
 B('C02.raw-index', ['C02'], [(P + 'tls/extension.py', "        if parser['extension_data']:\n            raise InvalidValue(parser['extension_data'], cls)",
                              "        if parser['extension_data'][0]:\n            raise InvalidValue(parser['extension_data'], cls)")])
